@@ -23,12 +23,14 @@ type effects struct {
 	comps  map[string]bool
 	params map[int]bool // summaries: parameters written through
 	all    bool
+	locks  lockSites // which mutexes (by field index) may be locked / unlocked
 }
 
 type callEffects struct {
 	comps   map[string]bool
 	written []ssa.Value // argument values whose pointee may be written
 	all     bool
+	locks   lockSites
 }
 
 var sumCache = map[*ssa.Function]*effects{}
@@ -164,6 +166,7 @@ func (p *Program) summary(u *Universe, fn *ssa.Function) *effects {
 				if ce.all {
 					e.all = true
 				}
+				e.locks.merge(ce.locks)
 				for k := range ce.comps {
 					e.comps[k] = true
 				}
@@ -173,6 +176,7 @@ func (p *Program) summary(u *Universe, fn *ssa.Function) *effects {
 			case *ssa.MakeClosure:
 				// the closure may run later in this function or in a callee
 				ce := p.summary(u, x.Fn.(*ssa.Function))
+				e.locks.merge(ce.locks)
 				if ce.all {
 					e.all = true
 				}
@@ -272,6 +276,11 @@ func (p *Program) contractEffects(u *Universe, con *spec.FuncContract, fn *ssa.F
 			ce.comps[k] = true
 		}
 		ce.all = all
+		if comps[lockGhostKey(u, p)] || all {
+			// explicit frame naming the lock ghost: which mutex is not known here
+			// (the lock operations themselves are recognised in callEffects)
+			ce.locks.all = true
+		}
 		if con.HasWrites {
 			for _, w := range con.Writes {
 				for i, pn := range con.Params {
@@ -281,12 +290,15 @@ func (p *Program) contractEffects(u *Universe, con *spec.FuncContract, fn *ssa.F
 				}
 			}
 		}
-	} else if fn != nil && len(fn.Blocks) > 0 && !con.Trusted {
+	} else if fn != nil && len(fn.Blocks) > 0 {
+		// no explicit frame: the computed effect summary of the body (also for
+		// trusted contracts on in-repo functions: only their clauses are assumed)
 		e := p.summary(u, fn)
 		for k := range e.comps {
 			ce.comps[k] = true
 		}
 		ce.all = e.all
+		ce.locks.merge(e.locks)
 		for i := range e.params {
 			if i < len(args) {
 				ce.written = append(ce.written, args[i])
@@ -303,10 +315,12 @@ func (p *Program) contractEffects(u *Universe, con *spec.FuncContract, fn *ssa.F
 func (p *Program) closureArgEffects(u *Universe, args []ssa.Value, ce *callEffects) {
 	for _, a := range args {
 		if mc, ok := a.(*ssa.MakeClosure); ok {
+			p.counterComps(u, FuncKey(mc.Fn.(*ssa.Function)), ce.comps)
 			e := p.summary(u, mc.Fn.(*ssa.Function))
 			if e.all {
 				ce.all = true
 			}
+			ce.locks.merge(e.locks)
 			for k := range e.comps {
 				ce.comps[k] = true
 			}
@@ -329,10 +343,13 @@ func (p *Program) callEffects(u *Universe, c *ssa.CallCommon, caller *ssa.Functi
 	if c.IsInvoke() {
 		args := append([]ssa.Value{c.Value}, c.Args...)
 		if con := p.IfaceContract(c.Method); con != nil {
-			return p.contractEffects(u, con, nil, args)
+			ce2 := p.contractEffects(u, con, nil, args)
+			p.counterComps(u, ifaceKey(c.Method), ce2.comps)
+			return ce2
 		}
 		pointerArgs(c.Args)
 		p.closureArgEffects(u, c.Args, ce)
+		p.counterComps(u, ifaceKey(c.Method), ce.comps)
 		return ce
 	}
 	var fn *ssa.Function
@@ -390,15 +407,26 @@ func (p *Program) callEffects(u *Universe, c *ssa.CallCommon, caller *ssa.Functi
 		pointerArgs(c.Args)
 		return ce
 	}
-	if con := p.ContractFor(fn); con != nil {
-		return p.contractEffects(u, con, fn, c.Args)
+	if isLockOp(fn) {
+		if con := p.ContractFor(fn); con != nil {
+			ce2 := p.contractEffects(u, con, fn, c.Args)
+			ce2.locks = lockSiteOf(c.Args)
+			return ce2
+		}
 	}
+	if con := p.ContractFor(fn); con != nil {
+		ce2 := p.contractEffects(u, con, fn, c.Args)
+		p.counterComps(u, FuncKey(fn), ce2.comps)
+		return ce2
+	}
+	p.counterComps(u, FuncKey(fn), ce.comps)
 	if len(fn.Blocks) > 0 {
 		e := p.summary(u, fn)
 		for k := range e.comps {
 			ce.comps[k] = true
 		}
 		ce.all = e.all
+		ce.locks.merge(e.locks)
 		for i := range e.params {
 			if i < len(c.Args) {
 				ce.written = append(ce.written, c.Args[i])
